@@ -212,7 +212,7 @@ def load_known():
 
 
 def write_replay(prop, seed, n, payload):
-    d = os.path.join(VERIF, 'replays')
+    d = os.environ.get('VERIF_REPLAY_DIR') or os.path.join(VERIF, 'replays')
     os.makedirs(d, exist_ok=True)
     p = os.path.join(d, '%s-%s-%d.json' % (prop, seed, n))
     json.dump(payload, open(p, 'w'), indent=1)
@@ -220,6 +220,6 @@ def write_replay(prop, seed, n, payload):
 
 
 def write_evidence(prop, ev):
-    d = os.path.join(VERIF, 'evidence')
+    d = os.environ.get('VERIF_EVIDENCE_DIR') or os.path.join(VERIF, 'evidence')
     os.makedirs(d, exist_ok=True)
     json.dump(ev, open(os.path.join(d, prop + '.json'), 'w'), indent=1)
